@@ -25,9 +25,14 @@ def dictify_complex_values(data: dict) -> dict:
             data[key] = {'real': value.real, 'imag': value.imag}
     return data
 
+def is_real_number(value) -> bool:
+    return isinstance(value, (int, float, np.integer, np.floating)) and not isinstance(value, bool)
+
 def undictify_complex_values(data: dict) -> dict:
     data = dict(data) # the caller's dictionary is not rewritten
     for key, value in data.items():
+        if not isinstance(value, dict) or not all(is_real_number(v) for v in value.values()):
+            continue # a mapping that only has the keys of a complex notation (two lists, two texts, two complex numbers) is no complex number
         if isinstance(value, dict) and set(value.keys()) == {'real', 'imag'}:
             data[key] = complex(value['real'], value['imag'])
         if isinstance(value, dict) and set(value.keys()) == {'abs', 'phase'}:
